@@ -210,6 +210,8 @@ class Balance:
         shared = set()   # terms some container took its own reference on
         dead = {}        # term -> event at which our last reference was dropped by cbor_decref
         self.uaf = []
+        self.lost = []   # (term, move event, callee event): moved reference handed to an inserting callee that may fail
+        moved = {}
 
         def res(t):
             return alias.get(t, t)
@@ -259,6 +261,8 @@ class Balance:
                     bump(e.args[0], +1, "cbor_incref", e)
                 elif c == "cbor_move":
                     alias[e.res] = res(e.args[0])
+                    if res(e.args[0]) in bal and bal[res(e.args[0])] > 0:
+                        moved[res(e.args[0])] = e
                     bump(e.args[0], -1, "cbor_move", e)
                 elif c == "cbor_intermediate_decref":
                     bump(e.args[0], -1, "cbor_intermediate_decref", e)
@@ -297,9 +301,15 @@ class Balance:
                         bump(e.args[k], -1, "%s consumes it" % c, e)
                 elif c in TAKES_REF:
                     # the container takes its own +1; the caller's reference is unaffected
-                    for k in TAKES_REF[c]:
+                    for k, how in TAKES_REF[c].items():
                         if k < len(e.args):
-                            shared.add(res(e.args[k]))
+                            t_ = res(e.args[k])
+                            shared.add(t_)
+                            if t_ in moved and bal.get(t_) == 0 and how != "always":
+                                # our only reference was given up by cbor_move: if the callee fails nobody owns the item
+                                succ = st.truth.get(e.res) is True if how == "bool" else st.known_nonnull(e.res)
+                                if not succ:
+                                    self.lost.append((t_, moved[t_], e))
                 if returns_owned(c) and e.res != ("void",):
                     acquire(e.res, "returned by %s" % c, e)
             elif e.kind == "ret":
